@@ -273,6 +273,33 @@ pub fn from_f32(elo: u32, ehi: u32, neg: bool, to_u: bool) {
     }
 }
 
+/// TryFrom<f32/f64> for UBig/IBig on LITERAL floats (no symbolic input; the symbolic versions are probes):
+/// integers convert exactly, fractions / NaN / infinities are refused
+pub fn from_float_literals() {
+    let ok: [(f64, i64); 6] = [(0.0, 0), (1.0, 1), (-1.0, -1), (255.0, 255), (-4096.0, -4096), (1099511627776.0, 1 << 40)];
+    let mut i = 0;
+    while i < ok.len() {
+        let (f, v) = ok[i];
+        let x = IBig::try_from(f).unwrap();
+        let (s, w) = x.as_sign_words();
+        let m = if w.is_empty() { 0 } else { w[0] as i64 };
+        assert!(w.len() <= 1 && m == v.abs() && (v == 0 || (s == NEG) == (v < 0)));
+        let y = IBig::try_from(f as f32).unwrap();
+        assert!(y == x);
+        i += 1;
+    }
+    let bad: [f64; 7] = [0.5, 1.5, -1.5, 0.25, 3.999, f64::NAN, f64::INFINITY];
+    let mut j = 0;
+    while j < bad.len() {
+        assert!(IBig::try_from(bad[j]).is_err(), "a float that is not an integer was converted");
+        assert!(IBig::try_from(bad[j] as f32).is_err(), "a float that is not an integer was converted");
+        if bad[j] > 0.0 {
+            assert!(UBig::try_from(bad[j]).is_err(), "a float that is not an integer was converted");
+        }
+        j += 1;
+    }
+}
+
 /// TryFrom<UBig/IBig> for f32/f64: Ok exactly when the integer is representable, value exact
 pub fn int_to_float_exact<const N: usize>(s: Sign, f64_: bool, top: Word) {
     let mut a = any_mag::<N>();
